@@ -4,4 +4,4 @@
 From Coq Require Import ExtrOcamlBasic.
 From GoldV Require Import Base SymTab.
 Extraction Language OCaml.
-Separate Extraction SymTab.run SymTab.collect_old SymTab.final_chain.
+Separate Extraction SymTab.run.
